@@ -555,6 +555,7 @@ theorem pendD_startTop {s : St} (h : PendD s) (t : Nat) (op : TopOp) : PendD (st
   case gc => exact pendD_same he (by trkD0) rfl (fs := [.gc]) rfl (noPend_of_empty rfl)
   case poll => exact pendD_same he (by trkD0) rfl (fs := [.poll]) rfl (noPend_of_empty rfl)
   case frameEnd => exact pendD_same he (by trkD0) rfl (fs := [.gc, .poll]) rfl (noPend_of_empty rfl)
+  case clearTrackers => exact pendD_same he (by trkD0) rfl (fs := []) rfl noPend_nil
   case wSysEvent sys ty pid =>
     refine pendD_applyCmd ?_ _ rfl
     exact pendD_same he (by trkD0) (by simp [St.fresh, St.emit]) (fs := []) (by simp [St.fresh, St.emit]) noPend_nil
